@@ -31,7 +31,7 @@
 From MptV Require Import Base.Mem C06.Gen_Types C06.TypesModel C06.TypesFacts
   C06.TypesChunks C06.TypesInv C06.TypesProps C06.TypesHistory
   C06.RegistrySpec C06.RegistryAbs C06.RegistryMaps C06.RegistryLookup C06.RegistryRefine
-  C06.RegistryProps C06.RegistryCorollaries C06.RegistryFini.
+  C06.RegistryProps C06.RegistryCorollaries C06.RegistryFini C06.TplModel C06.TplSim C06.TplProps.
 
 (* outputs of a history are the outputs of its prefix followed by those of the
    rest run from the state the prefix leaves *)
@@ -366,3 +366,102 @@ Print Assumptions C06_lookup_stable_via_spec.
 Print Assumptions C06_builtins_exactly_listed.
 Print Assumptions C06_cxx_get_transparent.
 Print Assumptions C06_exit_releases_registered.
+
+(* ================= round 5: the C++ template layer of mptcore/types.h =================
+   type_properties<T>::id(bool) / ::traits() (primary template, T *, span<T>, span<const T>, the full
+   specialisations for the built-in types), basetype(), MPT_type_toVector: TplModel.v.  One instantiation =
+   one SLOT of the table g_slots (= the instantiations of harness/c06_tpl.cpp); its function-local statics
+   (_valtype, the cached traits pointer of span<const T>) are the state [t_ids] / [t_trs] on top of the
+   registry.  The layer reaches the registry only through type_traits::add (OpTypeAdd) and
+   type_traits::get(int) (OpWrapTraits).  [mtrun]/[mtexec]: the layer over the mechanism model,
+   [strun]/[stexec]: the same layer over the specification; [treach ops] = the state after the history
+   [ops] (template calls interleaved with ANY operations of the wrappers) from a fresh process. *)
+
+(* refinement: answer by answer (error codes erased) and state by state - cached ids, cached descriptions,
+   abstraction of the registry - the layer over the mechanism is the layer over the specification *)
+Theorem C06_tpl_refines_spec : forall ops, Forall twf ops ->
+  map (@terase sout) (strun (t0 sreg0) ops) = map mtmap (mtrun (t0 reg0) ops) /\
+  stexec (t0 sreg0) ops = mlift (mtexec (t0 reg0) ops).
+Proof. exact tpl_refines. Qed.
+
+(* stable across repeated instantiation: the id cached for a slot after some history is still cached after
+   any further history, and is what every later id() of that slot answers, obtaining or not *)
+Theorem C06_tpl_id_stable : forall ops1 ops2 k v, cached (t_ids (treach ops1)) k = Some v ->
+  cached (t_ids (treach (ops1 ++ ops2))) k = Some v /\
+  forall ob, match nth_error g_slots k with
+             | Some (TFixed _ _) | None => True
+             | _ => tid step mview (treach (ops1 ++ ops2)) k ob = (treach (ops1 ++ ops2), TInt (Z.of_N v))
+             end.
+Proof. exact h_tpl_stable. Qed.
+
+(* unique: two instantiations never share a registered id *)
+Theorem C06_tpl_ids_distinct : forall ops k1 k2 v, (g_ValueAdd <= v)%N ->
+  cached (t_ids (treach ops)) k1 = Some v -> cached (t_ids (treach ops)) k2 = Some v -> k1 = k2.
+Proof. exact h_tpl_distinct. Qed.
+
+(* correctly described: whatever id() answers after any history - a specialisation its constant; the
+   primary / pointer / span<T> template an id of the generic range that the registry describes with the
+   very description object of that instantiation (sizeof T, init/fini); span<const T> such an id or the
+   vector id of the built-in element type - or it is refused (negative), never anything else *)
+Theorem C06_tpl_id_described : forall ops k ob s, nth_error g_slots k = Some s ->
+  let '(st1, x) := tid step mview (treach ops) k ob in
+  match x with
+  | TInt z =>
+    match s with
+    | TFixed id _ => z = id
+    | TGen t => exists v, z = Z.of_N v /\ dyn_ok (t_reg st1) t v
+    | TSpanC _ t => exists v, z = Z.of_N v /\ (dyn_ok (t_reg st1) t v \/ is_vector v = true)
+    end
+  | TRef _ => True
+  | _ => False
+  end.
+Proof. exact h_tpl_id. Qed.
+
+(* traits() of every slot, after any history, hands out a description (never null) whose size is the sizeof
+   of the C++ type: for the specialisations the registry's built-in entry (g_ctype_sizes), for span<const T>
+   the size of struct iovec whichever of the three sources (cache, registry, own object) it comes from *)
+Theorem C06_tpl_traits_size : forall ops k s, nth_error g_slots k = Some s ->
+  exists tr, snd (ttraits step mview (treach ops) k) = Some (Some tr) /\ ti_size tr = slot_size s.
+Proof. exact h_tpl_traits. Qed.
+
+Theorem C06_basetype_range : forall id, (basetype id <= g_DynamicLast)%N.
+Proof. exact basetype_range. Qed.
+Theorem C06_basetype_metaptr : forall id, is_metaptr id = true -> basetype id = g_TypeConvertablePtr.
+Proof. exact basetype_metaptr. Qed.
+
+(* non-vacuity: id without obtaining, registration, repetition, a second type, traits before and after,
+   span<const double> = 'D', span<const struct> registered, the registry asked for the new id; the layer over
+   the specification answers alike; the table is well-formed and the hypotheses are satisfiable *)
+Definition ex_tops : list top :=
+  [TId 17 false; TTraits 17; TId 17 true; TId 18 true; TId 17 true; TId 17 false; TTraits 17; TId 25 false;
+   TTraits 25; TId 28 true; TTraits 28; TBase (OpWrapTraits 2306); TBase (OpTypeAdd (Some tr8)); TId 19 true;
+   TBasetype 2050; TToVector 100].
+Example C06_tpl_example :
+  mtrun (t0 reg0) ex_tops =
+  [TRef (-3)%Z; TTr (Some (mkti 24 true true (Some 100017%N))) RNoId; TInt 2304; TInt 2305; TInt 2304; TInt 2304;
+   TTr (Some (mkti 24 true true (Some 100017%N))) RSame; TInt 68; TTr (Some (plain 16)) RSame; TInt 2306;
+   TTr (Some (mkti 16 false false (Some 100028%N))) RSame; TOut (OTraits (Some (mkti 16 false false (Some 100028%N))));
+   TOut (OId 2307); TInt 2308; TInt 11; TInt 68] /\
+  map (@terase sout) (strun (t0 sreg0) ex_tops) = map mtmap (mtrun (t0 reg0) ex_tops) /\
+  all_wf 0 g_slots = true /\
+  cached (t_ids (treach ex_tops)) 17 = Some 2304%N /\ cached (t_ids (treach ex_tops)) 25 = Some 68%N.
+Proof. vm_compute. repeat split; reflexivity. Qed.
+Example C06_tpl_wf_example : Forall twf ex_tops.
+Proof.
+  unfold ex_tops. repeat (apply Forall_cons; [try exact Logic.I|]); try apply Forall_nil.
+  vm_compute. split; [discriminate|reflexivity].
+Qed.
+
+(* the generic range runs out: the instantiation is refused, and retried when asked again *)
+Example C06_tpl_exhaustion_example :
+  mtrun (mtexec (t0 reg0) (repeat (TBase (OpTypeAdd (Some tr8))) 1792)) [TId 17 true; TId 17 true; TTraits 28]
+  = [TRef (-3)%Z; TRef (-3)%Z; TTr (Some (mkti 16 false false (Some 100028%N))) RNoId].
+Proof. vm_compute. reflexivity. Qed.
+
+Print Assumptions C06_tpl_refines_spec.
+Print Assumptions C06_tpl_id_stable.
+Print Assumptions C06_tpl_ids_distinct.
+Print Assumptions C06_tpl_id_described.
+Print Assumptions C06_tpl_traits_size.
+Print Assumptions C06_basetype_range.
+Print Assumptions C06_basetype_metaptr.
